@@ -34,6 +34,11 @@ type c16Case struct {
 	NUnary      int
 	Streams     []c15Stream
 	Layers      []c16Layer
+	Base        string // HTTP carriers: base path on both sides ("" = "/")
+	Shared      bool   // the same decorated description is registered with a second carrier that has its own transport interceptors
+	TUnary2     string
+	TStream2    string
+	tid         string
 	TUnary      string // transport-level unary interceptor behaviour ("" = nil)
 	TStream     string
 	CallStream  bool // which method is called
@@ -183,7 +188,11 @@ func (c *c16Case) model() (log []string, count, code int32, errCode codes.Code) 
 		return l.Unary
 	}
 	if t := map[bool]string{false: c.TUnary, true: c.TStream}[c.CallStream]; t != "" {
-		chain = append(chain, ic{"T", t})
+		tid := c.tid
+		if tid == "" {
+			tid = "T"
+		}
+		chain = append(chain, ic{tid, t})
 	}
 	// decoration order: see intercept.go - the last InterceptServer applied is the outermost;
 	// registry views apply their decoration when registering, so for "reg" layers the first
@@ -269,8 +278,6 @@ func propC16(c c16Case) *Outcome {
 	orig := c.desc(lg)
 	before := snapDesc(orig)
 	o.class("carrier=%s/stream=%v/layers=%d", c.Carrier, c.CallStream, len(c.Layers))
-	tu := c16UnaryInt("T", c.TUnary, lg, "")
-	ts := c16StreamInt("T", c.TStream, lg)
 	// explicit descriptor decoration first (in order), registry views around the carrier's registry
 	d := orig
 	for i, l := range c.Layers {
@@ -298,136 +305,159 @@ func propC16(c c16Case) *Outcome {
 		}
 		return r
 	}
-	srvObj := &struct{ x int }{1}
-	var conn grpc.ClientConnInterface
-	var closer func()
-	var directDesc *grpc.ServiceDesc
-	switch c.Carrier {
-	case "direct":
-		hm := grpchan.HandlerMap{}
-		r := wrapReg(hm)
-		if r == nil {
-			return o.failf("WithInterceptor with no interceptors returned a different registry")
-		}
-		r.RegisterService(d, srvObj)
-		directDesc, _ = hm.QueryService(c16Svc)
-	case cInproc:
-		ch := &inprocgrpc.Channel{}
-		if tu != nil {
-			ch.WithServerUnaryInterceptor(tu)
-		}
-		if ts != nil {
-			ch.WithServerStreamInterceptor(ts)
-		}
-		r := wrapReg(ch)
-		if r == nil {
-			return o.failf("WithInterceptor with no interceptors returned a different registry")
-		}
-		r.RegisterService(d, srvObj)
-		conn = ch
-	case cHTTP, cHTTPMux:
-		var h http.Handler
-		if c.Carrier == cHTTP {
-			var so []httpgrpc.ServerOption
-			if tu != nil {
-				so = append(so, httpgrpc.WithServerUnaryInterceptor(tu))
-			}
-			if ts != nil {
-				so = append(so, httpgrpc.WithServerStreamInterceptor(ts))
-			}
-			s := httpgrpc.NewServer(so...)
-			r := wrapReg(s)
-			if r == nil {
-				return o.failf("WithInterceptor with no interceptors returned a different registry")
-			}
-			r.RegisterService(d, srvObj)
-			h = s
-		} else {
+	base := c.Base
+	if base == "" {
+		base = "/"
+	}
+	// one decorated description may be served by several carriers, each with its own
+	// transport-level interceptors (the documented HandlerMap.ForEach pattern)
+	runs := [][3]string{{"T", c.TUnary, c.TStream}}
+	if c.Shared {
+		runs = append(runs, [3]string{"T2", c.TUnary2, c.TStream2})
+		o.class("shared-description")
+	}
+	if base != "/" {
+		o.class("base-path")
+	}
+	for _, rn := range runs {
+		lg.mu.Lock()
+		lg.ev = nil
+		lg.mu.Unlock()
+		cc := c
+		cc.tid, cc.TUnary, cc.TStream = rn[0], rn[1], rn[2]
+		tu := c16UnaryInt(rn[0], rn[1], lg, "")
+		ts := c16StreamInt(rn[0], rn[2], lg)
+		srvObj := &struct{ x int }{1}
+		var conn grpc.ClientConnInterface
+		var closer func()
+		var directDesc *grpc.ServiceDesc
+		switch c.Carrier {
+		case "direct":
 			hm := grpchan.HandlerMap{}
 			r := wrapReg(hm)
 			if r == nil {
 				return o.failf("WithInterceptor with no interceptors returned a different registry")
 			}
 			r.RegisterService(d, srvObj)
-			mux := http.NewServeMux()
-			httpgrpc.HandleServices(mux.HandleFunc, "/", hm, tu, ts)
-			h = mux
-		}
-		car := httpCarrierFor(h)
-		conn, closer = car.Conn, car.Close
-	}
-	if closer != nil {
-		defer closer()
-	}
-	wantLog, wantCount, wantCode, wantErr := c.model()
-	o.NonTrivial = len(wantLog) >= 3 || strings.Contains(strings.Join([]string{c.TUnary, c.TStream}, ","), "sc-")
-	for _, l := range c.Layers {
-		if strings.HasPrefix(l.Unary, "sc-") || strings.HasPrefix(l.Stream, "sc-") {
-			o.NonTrivial = true
-		}
-	}
-	var gotResp *pb.Message
-	var gotErr error
-	stall := guard("call", func() {
-		ctx, cancel := context.WithCancel(context.Background())
-		defer cancel()
-		if c.Carrier == "direct" {
-			if c.CallStream {
-				gotErr = c16DirectStream(directDesc, c.Index, srvObj, ts)
-				return
+			directDesc, _ = hm.QueryService(c16Svc)
+		case cInproc:
+			ch := &inprocgrpc.Channel{}
+			if tu != nil {
+				ch.WithServerUnaryInterceptor(tu)
 			}
-			dec := func(m interface{}) error { m.(*pb.Message).Count = 5; return nil }
-			r, err := directDesc.Methods[c.Index].Handler(srvObj, ctx, dec, tu)
-			gotErr = err
-			if err == nil {
-				gotResp, _ = r.(*pb.Message)
+			if ts != nil {
+				ch.WithServerStreamInterceptor(ts)
 			}
-			return
-		}
-		if c.CallStream {
-			s := c.Streams[c.Index]
-			cs, err := conn.NewStream(ctx, &grpc.StreamDesc{StreamName: s.Name, ClientStreams: s.CS, ServerStreams: s.SS}, "/"+c16Svc+"/"+s.Name)
-			if err != nil {
-				gotErr = err
-				return
+			r := wrapReg(ch)
+			if r == nil {
+				return o.failf("WithInterceptor with no interceptors returned a different registry")
 			}
-			cs.SendMsg(&pb.Message{Count: 5})
-			cs.CloseSend()
-			for i := 0; i < 3; i++ {
-				if gotErr = cs.RecvMsg(new(pb.Message)); gotErr != nil {
-					break
+			r.RegisterService(d, srvObj)
+			conn = ch
+		case cHTTP, cHTTPMux:
+			var h http.Handler
+			if c.Carrier == cHTTP {
+				so := []httpgrpc.ServerOption{httpgrpc.WithBasePath(base)}
+				if tu != nil {
+					so = append(so, httpgrpc.WithServerUnaryInterceptor(tu))
 				}
+				if ts != nil {
+					so = append(so, httpgrpc.WithServerStreamInterceptor(ts))
+				}
+				s := httpgrpc.NewServer(so...)
+				r := wrapReg(s)
+				if r == nil {
+					return o.failf("WithInterceptor with no interceptors returned a different registry")
+				}
+				r.RegisterService(d, srvObj)
+				h = s
+			} else {
+				hm := grpchan.HandlerMap{}
+				r := wrapReg(hm)
+				if r == nil {
+					return o.failf("WithInterceptor with no interceptors returned a different registry")
+				}
+				r.RegisterService(d, srvObj)
+				mux := http.NewServeMux()
+				httpgrpc.HandleServices(mux.HandleFunc, base, hm, tu, ts)
+				h = mux
 			}
-			if fmt.Sprint(gotErr) == "EOF" {
-				gotErr = nil
+			car := httpCarrierForBase(h, base)
+			conn, closer = car.Conn, car.Close
+		}
+		if closer != nil {
+			defer closer()
+		}
+		wantLog, wantCount, wantCode, wantErr := cc.model()
+		o.NonTrivial = o.NonTrivial || len(wantLog) >= 3 || strings.Contains(strings.Join([]string{cc.TUnary, cc.TStream}, ","), "sc-")
+		for _, l := range c.Layers {
+			if strings.HasPrefix(l.Unary, "sc-") || strings.HasPrefix(l.Stream, "sc-") {
+				o.NonTrivial = true
 			}
-			return
 		}
-		out := new(pb.Message)
-		gotErr = conn.Invoke(ctx, fmt.Sprintf("/%s/U%d", c16Svc, c.Index), &pb.Message{Count: 5}, out)
-		if gotErr == nil {
-			gotResp = out
+		var gotResp *pb.Message
+		var gotErr error
+		stall := guard("call", func() {
+			ctx, cancel := context.WithCancel(context.Background())
+			defer cancel()
+			if c.Carrier == "direct" {
+				if c.CallStream {
+					gotErr = c16DirectStream(directDesc, c.Index, srvObj, ts)
+					return
+				}
+				dec := func(m interface{}) error { m.(*pb.Message).Count = 5; return nil }
+				r, err := directDesc.Methods[c.Index].Handler(srvObj, ctx, dec, tu)
+				gotErr = err
+				if err == nil {
+					gotResp, _ = r.(*pb.Message)
+				}
+				return
+			}
+			if c.CallStream {
+				s := c.Streams[c.Index]
+				cs, err := conn.NewStream(ctx, &grpc.StreamDesc{StreamName: s.Name, ClientStreams: s.CS, ServerStreams: s.SS}, "/"+c16Svc+"/"+s.Name)
+				if err != nil {
+					gotErr = err
+					return
+				}
+				cs.SendMsg(&pb.Message{Count: 5})
+				cs.CloseSend()
+				for i := 0; i < 3; i++ {
+					if gotErr = cs.RecvMsg(new(pb.Message)); gotErr != nil {
+						break
+					}
+				}
+				if fmt.Sprint(gotErr) == "EOF" {
+					gotErr = nil
+				}
+				return
+			}
+			out := new(pb.Message)
+			gotErr = conn.Invoke(ctx, fmt.Sprintf("/%s/U%d", c16Svc, c.Index), &pb.Message{Count: 5}, out)
+			if gotErr == nil {
+				gotResp = out
+			}
+		})
+		if stall != "" {
+			return o.failf("stall: %s", stall)
 		}
-	})
-	if stall != "" {
-		return o.failf("stall: %s", stall)
-	}
-	lg.mu.Lock()
-	gotLog := append([]string{}, lg.ev...)
-	lg.mu.Unlock()
-	o.Observed = map[string]interface{}{"log": gotLog, "want_log": wantLog, "err": errStr(gotErr), "resp": fmt.Sprint(gotResp)}
-	if !sameStrings(gotLog, wantLog) {
-		return o.failf("%s: event log %v, expected %v", c.Carrier, gotLog, wantLog)
-	}
-	if status.Code(gotErr) != wantErr {
-		if !(c.CallStream && wantErr == codes.OK && gotErr != nil && !c.Streams[c.Index].SS && c.Carrier != "direct") {
-			return o.failf("%s: result %v, expected code %v", c.Carrier, gotErr, wantErr)
+		lg.mu.Lock()
+		gotLog := append([]string{}, lg.ev...)
+		lg.mu.Unlock()
+		o.Observed = map[string]interface{}{"log": gotLog, "want_log": wantLog, "err": errStr(gotErr), "resp": fmt.Sprint(gotResp)}
+		if !sameStrings(gotLog, wantLog) {
+			return o.failf("%s: event log %v, expected %v", c.Carrier, gotLog, wantLog)
 		}
-		// a single-response stream method whose handler sends nothing legitimately fails on the client
-	}
-	if !c.CallStream && wantErr == codes.OK {
-		if gotResp == nil || gotResp.Count != wantCount || gotResp.Code != wantCode {
-			return o.failf("%s: response %v, expected count=%d code=%d", c.Carrier, gotResp, wantCount, wantCode)
+		if status.Code(gotErr) != wantErr {
+			if !(c.CallStream && wantErr == codes.OK && gotErr != nil && !c.Streams[c.Index].SS && c.Carrier != "direct") {
+				return o.failf("%s: result %v, expected code %v", c.Carrier, gotErr, wantErr)
+			}
+			// a single-response stream method whose handler sends nothing legitimately fails on the client
+		}
+		if !c.CallStream && wantErr == codes.OK {
+			if gotResp == nil || gotResp.Count != wantCount || gotResp.Code != wantCode {
+				return o.failf("%s: response %v, expected count=%d code=%d", c.Carrier, gotResp, wantCount, wantCode)
+			}
 		}
 	}
 	if after := snapDesc(orig); !reflect.DeepEqual(before, after) {
@@ -498,6 +528,14 @@ func genC16(t *rapid.T) c16Case {
 		c.Index = rapid.IntRange(0, c.NUnary-1).Draw(t, "idx")
 	}
 	c.HandlerFail = rapid.IntRange(0, 4).Draw(t, "hfail") == 0
+	if c.Carrier == cHTTP || c.Carrier == cHTTPMux {
+		c.Base = rapid.SampledFrom([]string{"", "", "/api/", "/v1/rpc"}).Draw(t, "base")
+	}
+	if rapid.IntRange(0, 2).Draw(t, "shared") == 0 {
+		c.Shared = true
+		c.TUnary2 = rapid.SampledFrom(c16UBeh).Draw(t, "tu2")
+		c.TStream2 = rapid.SampledFrom(c16SBeh).Draw(t, "ts2")
+	}
 	return c
 }
 
